@@ -694,3 +694,25 @@ Proof.
   pose proof (build_app_carries cfg a o Hb Hin) as Ht.
   split; eapply help_same_target_app; eauto.
 Qed.
+
+(* The statement of HelpTargetLemmas.help_same_target with its second parse hypothesis discharged (and "-h" added): for
+   a command without default sub-commands whose lenient parse of the plain line succeeds, all three spellings give the
+   path walked.  The remaining hypothesis cannot be derived from the configuration: a typed argument makes the lenient
+   parse raise ValueError (Props/C13.v, ex_help_value_error) - then all three spellings raise it. *)
+Corollary help_target_no_defaults cfg a path b p x1 :
+  build_app cfg = Ok a -> defines_help cfg = true ->
+  forallb lead_ok path = true ->
+  (match path with t :: _ => str_eqb t S_help = false | [] => True end) ->
+  walk (named_of (ap_cmds a)) None path = Ok (Some (b, p)) ->
+  defaults_of (b_subs b) = [] ->
+  parse (b_fmt b) true path = Ok x1 ->
+  help_target a (S_help :: path) = Ok p /\ help_target a (path ++ [T_help]) = Ok p /\ help_target a (path ++ [T_h]) = Ok p.
+Proof.
+  intros Hb Hd Hl Hh Hw Hdef Hp. destruct (help_same_target cfg a path Hb Hd Hl Hh) as [E1 E2].
+  assert (help_target a (S_help :: path) = Ok p) as H0.
+  { rewrite help_word_dropped by exact Hh. unfold help_target.
+    assert ((match path with t :: r => if str_eqb t S_help then r else path | [] => [] end) = path) as ->.
+    { destruct path as [|t r]; [reflexivity|now rewrite Hh]. }
+    rewrite (leading_all _ Hl), Hw. cbn [bind]. rewrite Hdef. cbn [pick_default bind]. now rewrite Hp. }
+  rewrite <- E1, <- E2. auto.
+Qed.
